@@ -29,6 +29,8 @@ PATTERNS = [
     r"(?P<name>[a-z]+)_log\.zo",
     r"sub/.*",
     r"zzz_nomatch",
+    r"oth",                       # matches 'other.zo' as a prefix only
+    r"(?P<name>[a-z]+)_l",        # prefix of 'work_log.zo'
 ]
 TARGETS = ["notes.zo", "20240304.zo", "work_log.zo", "sub/new/deep.zo", "noext", "other.zo", "20241399.zo",
            "20240131.zo", "20240430.zo", "20240229.zo"]
